@@ -1372,6 +1372,8 @@ class Exec:
             return ModRef("name", base.name + "." + attr)
         if isinstance(base, ObjRef):
             fields = st.heap[base.oid]
+            if attr.lstrip("_") == "nodes" and "nodes.len" in fields:
+                return NodeList(base.oid)
             if attr.startswith("_") and attr[1:] in fields:
                 return fields[attr[1:]]
             owner, getter = self.repo.find_getter(base.cls, attr)
